@@ -52,7 +52,7 @@ class CheckC09(core.Check):
         for _ in range(rnd.randrange(6, 30)):
             d = 0 if parsed.oneway else rnd.randrange(2)
             w, r = ("A", "B") if d == 0 else ("B", "A")
-            a = rnd.choice(["w", "w", "wbad", "deliver", "deliver", "garbage", "setrx", "settx", "setboth", "replay"])
+            a = rnd.choice(["w", "w", "wbad", "deliver", "deliver", "garbage", "short", "paybuf", "setrx", "settx", "setboth", "replay"])
             k += 1
             if st:
                 n = rnd.choice(VALUES + [rnd.getrandbits(64)])
@@ -68,7 +68,7 @@ class CheckC09(core.Check):
                     lab = c.op("st_write", w, n=n, pay="gen:6:p%d" % k, buf=21)
                     steps.append((lab, w, "st_write_bad", n))
                 else:
-                    lab = c.op("st_read", r, n=n, msg="gen:40:g%d" % k, buf=BIG)
+                    lab = c.op("st_read", r, n=n, msg="gen:%d:g%d" % (rnd.choice([40, 40, 15, 0]), k), buf=BIG)
                     steps.append((lab, r, "st_read_bad", n))
                 continue
             if a == "w":
@@ -91,6 +91,15 @@ class CheckC09(core.Check):
             elif a == "garbage":
                 lab = c.op("t_read", r, msg="gen:40:g%d" % k, buf=BIG)
                 steps.append((lab, r, "garbage", d))
+            elif a == "short":
+                lab = c.op("t_read", r, msg="gen:%d:g%d" % (rnd.choice([0, 1, 15]), k), buf=BIG)
+                steps.append((lab, r, "garbage", d))
+            elif a == "paybuf":
+                # a genuine, in-order message delivered into a payload buffer that is too small: refused, nothing moves
+                if d in last:
+                    reg, mn = last[d]
+                    lab = c.op("t_read", r, msg="$" + reg, buf=rnd.choice([0, 5]))
+                    steps.append((lab, r, "garbage", d))
             else:
                 v = rnd.choice(VALUES + [rnd.getrandbits(64)])
                 if a in ("setrx", "setboth"):
